@@ -308,6 +308,7 @@ for _n in (1, 2):
     add("sync_base_cache.rs", f"s_admit_lemma_n{_n}", {"C13", "C12", "C08"}, "quick", 25, "sync Inner::admit for ALL weights / candidate weights / sketch contents (decision only; read-only)",
         f"n={_n} admitted residents, u32 weights symbolic", required=("rejected on popularity", "rejected: no covering prefix", "admitted over all residents"))
 add("sync_base_cache.rs", "l_sync_round_plain", {"C10", "C03", "C09", "C12", "C01", "C06", "C08"}, "quick", 60, "one whole Inner::sync with a queued Hit and a queued insert that fits", "n=1 + 1 pending, unbounded, symbolic read timestamp", quick={"C10", "C03", "C09", "C12"})
+add("sync_base_cache.rs", "l_sync_round_plain_late", {"C05", "C06", "C10", "C03", "C09", "C12", "C01", "C08"}, "quick", 60, "one whole Inner::sync run LATER than the queued insert it applies (clock advanced): timestamps still those of the insert", "n=1 + 1 pending, unbounded, symbolic read timestamp", quick={"C05", "C06"})
 add("sync_base_cache.rs", "l_evict_lru_terminates_on_unevictable_node", {"C09", "C08"}, "quick", 60, "evict_lru_entries over capacity with only an invalidated (unevictable) node left: bounded by its batch size", "n=1 whose map entry is gone, batch size 2", unwind_tag="C09")
 for _nm in ("hit", "expired", "invalidated", "miss"):
     add("sync_base_cache.rs", f"c09_get_{_nm}_releases_guard", {"C09", "C08"}, "quick", 30, "get/contains_key release every DashMap guard before the housekeeping point (inline maintenance) and before returning",
